@@ -58,7 +58,10 @@ pub fn check_limits(case: &C17Case, tr: &Trace) -> Result<Vec<&'static str>, Fai
     let tau = sc.tau_ms;
     let eps = 3 * tau + 6;
     let mut labels = vec![];
-    let (expected_cond, period_ms) = match case.family.as_str() {
+    // "-hsr": the base family with handler Suspend for its limit fault, and a user Resume 700 ms after the transaction suspended itself
+    let hsr = case.family.ends_with("-hsr");
+    let base_family = case.family.trim_end_matches("-hsr");
+    let (expected_cond, period_ms) = match base_family {
         "S-ack" | "R-ack" | "S-ack-susp" | "R-ack-susp" => (Condition::PositiveLimitReached, cfg.ta as u64 * 1000),
         "S-inact" | "R-inact" => (Condition::InactivityDetected, cfg.ti as u64 * 1000),
         "R-nak" => (Condition::NakLimitReached, cfg.tn as u64 * 1000),
@@ -97,7 +100,7 @@ pub fn check_limits(case: &C17Case, tr: &Trace) -> Result<Vec<&'static str>, Fai
     // on the link in the very millisecond of the fault is what the transaction did *after* declaring it (handler Ignore: it carries on)
     let before_fault = |t: u64| t + (1 - tau.min(1)) <= t_fault;
     let last_delivery_before = |t: u64| tr.deliveries.iter().filter(|d| d.1 == real && d.0 <= t).map(|d| d.0).max();
-    match case.family.as_str() {
+    match base_family {
         "S-ack" | "R-ack" => {
             let k = if real == 0 { Kind::Eof } else { Kind::Finished };
             let tx: Vec<u64> = times_of(k).into_iter().filter(|t| before_fault(*t)).collect();
@@ -282,16 +285,53 @@ pub fn check_limits(case: &C17Case, tr: &Trace) -> Result<Vec<&'static str>, Fai
             if cancel_pdu {
                 return Err(fail(tr, "handler-suspend:cancelled", format!("{cond:?} with handler Suspend, but the cancel PDU went out")));
             }
-            for d in &after {
+            let t_resume = tr.cmds.iter().find(|c| c.1 == real && c.2.starts_with("Resume")).map(|c| c.0);
+            for d in after.iter().filter(|d| t_resume.map(|tr_| d.t < tr_).unwrap_or(true)) {
                 let k = kind_of(&d.pdu);
                 if matches!(k, Kind::Metadata | Kind::FileData | Kind::Eof | Kind::Nak | Kind::Finished) {
                     return Err(fail(tr, "handler-suspend:emits", format!("{cond:?} at {t_fault} ms with handler Suspend, but a {k:?} PDU went out at {} ms", d.t)));
                 }
             }
-            if !tr.alive_at_end(real, id) {
+            if !hsr && !tr.alive_at_end(real, id) {
                 return Err(fail(tr, "handler-suspend:ended", format!("{cond:?} with handler Suspend: the transaction is gone at the end (terminated {term:?})")));
             }
             labels.push("handler-suspend");
+            if hsr {
+                // the user resumes: the peer is as silent as before, so the limit is reached again - but only after another
+                // L unanswered expirations counted from the resume, each with its retransmission
+                let Some(t_res) = t_resume else {
+                    return Err(fail(tr, "harness:no-resume", "the resume script did not run".into()));
+                };
+                let second = faults.iter().find(|(t, c)| *t > t_res && *c == expected_cond).map(|x| x.0);
+                let Some(t2) = second else {
+                    return Err(fail(
+                        tr,
+                        &format!("no-second-fault-after-resume:{}", case.family),
+                        format!("resumed at {t_res} ms with the peer still silent: {expected_cond:?} was never declared again"),
+                    ));
+                };
+                if t2 + eps + 2 * tau < t_res + l * period_ms {
+                    return Err(fail(
+                        tr,
+                        &format!("fault-too-early-after-resume:{}", case.family),
+                        format!("resumed at {t_res} ms, limit {l} x {period_ms} ms: {expected_cond:?} declared again already at {t2} ms"),
+                    ));
+                }
+                let k = match base_family {
+                    "R-nak" => Kind::Nak,
+                    "S-ack" => Kind::Eof,
+                    _ => Kind::Finished,
+                };
+                let n = emitted.iter().filter(|d| kind_of(&d.pdu) == k && d.t > t_res && d.t < t2 && !carries_fault_cond(d)).count() as u64;
+                if n + 1 < l {
+                    return Err(fail(
+                        tr,
+                        &format!("retransmissions-after-resume:{}", case.family),
+                        format!("between the resume at {t_res} ms and the second fault at {t2} ms only {n} {k:?} PDU(s) went out, limit {l}"),
+                    ));
+                }
+                labels.push("second-fault-after-resume");
+            }
         }
         _ => {
             // cancel (configured or default)
@@ -329,6 +369,9 @@ impl Part for C17Part {
             "R-inact" => "R-inact",
             "R-cksum" => "R-cksum",
             "S-ack-susp" => "S-ack-susp",
+            "S-ack-hsr" => "S-ack-hsr",
+            "R-ack-hsr" => "R-ack-hsr",
+            "R-nak-hsr" => "R-nak-hsr",
             "R-ack-susp" => "R-ack-susp",
             _ => "R-size",
         });
@@ -351,6 +394,8 @@ impl Part for C17Part {
 
 #[allow(clippy::too_many_arguments)]
 pub fn build(family: &str, ta: i64, tn: i64, ti: i64, l: u32, handler: i8, answers: u32, seed: u64, immediate: bool) -> C17Case {
+    let hsr = family.ends_with("-hsr");
+    let family = family.trim_end_matches("-hsr");
     let cond = match family {
         "S-ack" | "R-ack" | "S-ack-susp" | "R-ack-susp" => Condition::PositiveLimitReached,
         "S-inact" | "R-inact" => Condition::InactivityDetected,
@@ -466,11 +511,21 @@ pub fn build(family: &str, ta: i64, tn: i64, ti: i64, l: u32, handler: i8, answe
             inject(&mut sc, Trigger::AtMs(100), pup.eof(Condition::NoError, modular(&content[..64]), 64));
         }
     }
+    if hsr {
+        sc.actions.push(Action {
+            trigger: Trigger::OnIndication { entity: real, put: 0, kind: "suspended".into(), delay_ms: 700 },
+            entity: real,
+            kind: ActionKind::Resume { put: 0 },
+        });
+    }
     let _ = FileStatusCode::Retained;
     sc.horizon_ms = 2000 + (l as u64 + answers as u64 + 3) * worst * 2 + if family.ends_with("-susp") { 8 * worst } else { 0 };
+    if hsr {
+        sc.horizon_ms += (l as u64 + 3) * worst * 2;
+    }
     C17Case {
         sc,
-        family: family.to_string(),
+        family: if hsr { format!("{family}-hsr") } else { family.to_string() },
         handler,
         answers,
     }
@@ -516,6 +571,24 @@ retransmission) x deferred/immediate NAK; exhaustive over this grid, repeated un
                             cases.push(build(family, ta, tn, ti, l, handler, answers, mix(ctx.seed, k), immediate));
                         }
                     }
+                }
+            }
+        }
+    }
+    // the limit fault is handled by Suspend and the user resumes the transaction 700 ms later
+    for family in ["S-ack-hsr", "R-ack-hsr", "R-nak-hsr"] {
+        for t in [1i64, 2, 3] {
+            for l in 1u32..=4 {
+                for immediate in [false, true] {
+                    if immediate && family != "R-nak-hsr" {
+                        continue;
+                    }
+                    let (ta, tn, ti) = match family {
+                        "R-nak-hsr" => (t + 1, t, 80 * t),
+                        _ => (t, t + 1, 80 * (t + 1)),
+                    };
+                    k += 1;
+                    cases.push(build(family, ta, tn, ti, l, 1, 0, mix(ctx.seed, k), immediate));
                 }
             }
         }
